@@ -9,6 +9,9 @@
 #include <memory>
 #include <libgen.h>
 #include <sys/stat.h>
+#include <sys/wait.h>   // pa argc0: the call runs in a fork()ed child
+#include <fcntl.h>
+#include <cerrno>
 #include <unistd.h>
 
 #include "celma/prog_args.hpp"
@@ -371,6 +374,75 @@ int main() {
          if (!err.empty()) return err + " after" + out;
          return "ok" + out;
       }
+      if (t[1] == "argc0") {
+         // pa argc0 : Handler::evalArguments( 0, argv) on a handler made from the current cfg, with argv = an
+         // exact-size heap array { nullptr } - what celma::appl::ArgString2Array( "") builds (mArgC == 0).
+         // A sanitizer report ends the process, so the call runs in a fork()ed child; the parent prints how
+         // the child ended:  ok | throw <class> | crash exit=<code> or signal=<n> [<sanitizer error> <file>:<line>]
+         // (known finding argc0-reads-outside-argv, property C04)
+         if (!haveCfg) return "bad-op";
+         std::fflush(stdout);                                // nothing buffered may be written twice
+         std::fflush(stderr);
+         int fds[2];
+         if (::pipe(fds) != 0) return "!! argc0: pipe() failed";
+         pid_t pid = ::fork();
+         if (pid < 0) { ::close(fds[0]); ::close(fds[1]); return "!! argc0: fork() failed"; }
+         if (pid == 0) {
+            // child: leaves through _exit() only (no stdio flush, no return into the line loop); its stderr (sanitizer
+            // report, exception class) goes to the parent, its stdout nowhere
+            ::close(fds[0]);
+            ::dup2(fds[1], 2);
+            ::close(fds[1]);
+            int nul = ::open("/dev/null", O_WRONLY);
+            if (nul >= 0) ::dup2(nul, 1);
+            std::deque<Dest> ds(cfg.args.size());
+            for (size_t a = 0; a < cfg.args.size(); ++a) initDest(cfg.args[a], ds[a]);
+            std::vector<std::deque<Dest>> sds;
+            for (auto& sp : cfg.subs) sds.emplace_back(sp.args.size());
+            for (size_t j = 0; j < cfg.subs.size(); ++j)
+               for (size_t a = 0; a < cfg.subs[j].args.size(); ++a) initDest(cfg.subs[j].args[a], sds[j][a]);
+            char** argv0 = new char*[1]{nullptr};
+            std::string err = vh::guarded([&] {
+               Handler h(cfg.abbr ? 0 : Handler::hfNoAbbr);
+               SubRun run(cfg.subs.size());
+               defineAll(h, cfg, ds, sds, run);
+               h.evalArguments(0, argv0);
+            });
+            if (err.empty()) ::_exit(0);
+            err = "\nARGC0 " + err + "\n";
+            ssize_t wr = ::write(2, err.data(), err.size());
+            (void) wr;
+            ::_exit(3);
+         }
+         ::close(fds[1]);
+         std::string rep;
+         char buf[4096];
+         for (;;) {
+            ssize_t n = ::read(fds[0], buf, sizeof buf);
+            if (n > 0) rep.append(buf, static_cast<size_t>(n));
+            else if (n == 0 || errno != EINTR) break;
+         }
+         ::close(fds[0]);
+         int st = 0;
+         while (::waitpid(pid, &st, 0) < 0 && errno == EINTR) {}
+         if (WIFEXITED(st) && WEXITSTATUS(st) == 0) return "ok";
+         if (WIFEXITED(st) && WEXITSTATUS(st) == 3) {
+            auto p = rep.find("\nARGC0 throw ");
+            if (p != std::string::npos) return rep.substr(p + 7, rep.find('\n', p + 7) - (p + 7));
+         }
+         std::string out = WIFSIGNALED(st) ? "crash signal=" + std::to_string(WTERMSIG(st))
+                                           : "crash exit=" + std::to_string(WIFEXITED(st) ? WEXITSTATUS(st) : -1);
+         // "SUMMARY: AddressSanitizer: heap-buffer-overflow <place> in ..." -> the error word (the place is not
+         // symbolised reliably in the child, so it is not printed)
+         auto sp = rep.find("SUMMARY: ");
+         if (sp != std::string::npos) {
+            std::istringstream is(rep.substr(sp + 9, rep.find('\n', sp) - (sp + 9)));
+            std::string san, what;
+            is >> san >> what;
+            if (!what.empty()) out += " " + what;
+         }
+         return out;
+      }
       if (t[1] == "rest") {
          // for every element: argsAsString( true) and argsAsString( false) (which reads through the
          // private isSingleArg()); an exception of one call is printed in place as !<class>
@@ -401,13 +473,20 @@ int main() {
             else return "bad-op";
          }
          if (k == t.size() || n == 0 || n > 9) return "bad-op";
+         // item <m>s:<keyspec> (digits, then the letter s): a SUB-GROUP argument of member m, i.e.
+         // Handler::addArgument( spec, Handler& subGroup, desc) with a fresh sub handler made from member m
          std::vector<std::pair<size_t, std::string>> defs;
+         std::vector<bool> defIsSub;
          for (++k; k < t.size(); ++k) {
             auto c = t[k].find(':');
-            if (c == std::string::npos) return "bad-op";
-            size_t m = std::stoul(t[k].substr(0, c));
+            if (c == std::string::npos || c == 0) return "bad-op";
+            bool isSub = t[k][c - 1] == 's';
+            std::string num = t[k].substr(0, isSub ? c - 1 : c);
+            if (num.empty() || num.find_first_not_of("0123456789") != std::string::npos) return "bad-op";
+            size_t m = std::stoul(num);
             if (m >= n) return "bad-op";
             defs.emplace_back(m, t[k].substr(c + 1));
+            defIsSub.push_back(isSub);
          }
          Groups::instance().removeAllArgHandler();
          std::deque<int> dests(defs.size());
@@ -415,8 +494,17 @@ int main() {
          {
             std::vector<std::shared_ptr<Handler>> hs;
             for (size_t m = 0; m < n; ++m) hs.push_back(Groups::instance().getArgHandler(std::string("g") + char('0' + m), 0));
+            // the sub handlers of the sub-group definitions: made from (after) the member handler, declared after
+            // `hs` so that they are destroyed before the members (as SubRun in `pa group`); they live to the end of the op
+            std::deque<std::unique_ptr<Handler>> subs;
             for (size_t d = 0; d < defs.size(); ++d) {
-               std::string err = vh::guarded([&] { hs[defs[d].first]->addArgument(defs[d].second, cpa::destination(dests[d], "d"), "desc"); });
+               std::string err = vh::guarded([&] {
+                  if (defIsSub[d]) {
+                     subs.emplace_back(new Handler(*hs[defs[d].first], 0));
+                     hs[defs[d].first]->addArgument(defs[d].second, *subs.back(), "desc");
+                     return;
+                  }
+                  hs[defs[d].first]->addArgument(defs[d].second, cpa::destination(dests[d], "d"), "desc"); });
                if (!err.empty()) { res = err + " at " + std::to_string(d); break; }
             }
          }
